@@ -629,6 +629,30 @@ pub fn c05(em: &mut Emit, thorough: bool, seed: u64) {
                             _ => {}
                         }
                     }
+                    // preconditions that PASS, next to If-Range (round 15, M-C05-13: a passing
+                    // If-Match taken as proof that the If-Range tag is current): they must not
+                    // change what If-Range decides; the reference request below keeps them
+                    match line_no % 7 {
+                        1 => q.if_match = Some(b"*".to_vec()),
+                        2 => {
+                            if let Some(t) = &e.etag {
+                                if !t.starts_with(b"W/") {
+                                    let mut l = b"\"stale\", ".to_vec();
+                                    l.extend_from_slice(t);
+                                    q.if_match = Some(l);
+                                }
+                            }
+                        }
+                        3 => q.if_none_match = Some(b"\"zzz-unrelated\"".to_vec()),
+                        4 => q.ius = DateH::Secs(lm + 10),
+                        5 => q.ims = DateH::Secs(lm - 10),
+                        6 => {
+                            q.if_match = Some(b"*".to_vec());
+                            q.ius = DateH::Secs(lm);
+                            q.if_none_match = Some(b"W/\"zzz-unrelated\"".to_vec());
+                        }
+                        _ => {}
+                    }
                     let o = observe_serve(&q, &e);
                     let identical_strong = match (&ir, &e.etag) {
                         (Some(v), Some(t)) => v == t && !t.starts_with(b"W/"),
